@@ -16,7 +16,7 @@ naming its side conditions), and for every other class a kernel-checked counter-
 Each witness is replayed on the real plugin by `harness/props/c19.go`.
 
 Ties to the source, regenerated on every run (`Gen.OaRules`, from `validation.go`):
-`getter_matches_source`, `exclusive_literals_select_number`, `scalar_nodes_are_untagged`,
+`getter_matches_source`, `exclusive_literals_select_number`, `scalar_nodes_are_untagged`, `string_literals_are_tagged`,
 `keyword_wiring`, `format_table`.
 
 `pattern` is published verbatim and evaluated on neither side. Float printing (`strconv`) and
@@ -84,6 +84,12 @@ theorem exclusive_literals_select_number :
 /-- every `const` / `enum` value is a `yaml.Node` with `Kind` and `Value` only: no `Tag`, no
 quoting style. -/
 theorem scalar_nodes_are_untagged : ∀ t ∈ Gen.OaRules.nodeLits, t.2.2 = ["Kind", "Value"] := by decide
+
+/-- string `const` / `in` values are built by `stringNode`, whose literal carries `Tag: "!!str"`. -/
+theorem string_literals_are_tagged :
+    Gen.OaRules.nodeCalls = [("applyStringConstraints", "GetIn", "stringNode"), ("applyStringConstraints", "HasConst", "stringNode")] ∧
+    Gen.OaRules.nodeHelpers = [("stringNode", ["Kind", "Tag", "Value"], "\"!!str\"")] ∧
+    (Gen.OaRules.nodeLits.all fun t => t.1 != "applyStringConstraints") = true := by decide
 
 /-- the rule accessor → schema keyword wiring the model transcribes. -/
 theorem keyword_wiring :
@@ -153,17 +159,21 @@ example : accepts [] 3 (Impl.fieldSchema (.num .int32) .single false
       {group := .int32, gte := some ⟨.int (-5), .int (-5)⟩, lte := some ⟨.int 7, .int 7⟩})
     (jsonForm (.num .int32) false (.one (.num (.int 8)))) = false := by decide
 
-/-- **strings**: `min_len` / `max_len` in code points, `in`, `const`, for ANY string value.
+/-- **strings**: `min_len` / `max_len` in code points, `in`, `const`, for ANY string value and ANY
+`in` / `const` literals (they are tagged `!!str` since the `!!str` fix: `string_literals_are_tagged`).
 Partial: count bounds must fit `int64`, `max_len` must not be `0` (`w_zero_max_dropped`,
-`w_count_wraps`), and the `in` / `const` values must be scalars a YAML reader leaves strings
-(`w_string_const_retyped`). -/
+`w_count_wraps`). -/
 theorem string_rules_iff_partial (c : FCard) (hc : c.isScalar = true) (int64Number : Bool) (r : FieldRules)
     (hmin : CountOK r.minLen) (hmax : CountPos r.maxLen)
-    (hin : ∀ v ∈ r.strIn, staysString v = true) (hconst : ∀ v, r.strConst = some v → staysString v = true)
     (s : Str) (fuel : Nat) :
     accepts [] (fuel + 1) (Impl.fieldSchema .string c int64Number r) (jsonForm .string int64Number (.one (.str s)))
       = Spec.satisfies .string c r (.one (.str s)) :=
-  string_rules_iff c hc int64Number r hmin hmax hin hconst s fuel
+  string_rules_iff c hc int64Number r hmin hmax s fuel
+
+/-- non-vacuity at the literals that used to be re-typed: `const: "123"`, `in: ["true", ""]`. -/
+example : accepts [] 3 (Impl.fieldSchema .string .single false {strConst := some "123".toList}) (jsonForm .string false (.one (.str "123".toList))) = true ∧
+    accepts [] 3 (Impl.fieldSchema .string .single false {strIn := ["true".toList, []]}) (jsonForm .string false (.one (.str []))) = true ∧
+    accepts [] 3 (Impl.fieldSchema .string .single false {strIn := ["true".toList, []]}) (jsonForm .string false (.one (.str "false".toList))) = false := by decide
 
 /-- a syntactic class of values that stay strings: first character an ASCII letter, not a YAML
 null / boolean word. -/
@@ -310,20 +320,25 @@ theorem own_group_rules_published (nk : NKind) (c : FCard) (hc : c.isScalar = tr
 
 def inRules : FieldRules := {strIn := ["a".toList, "123".toList, "".toList]}
 
-/-- a string `const` / `in` value that reads as a YAML number, boolean or null is published as
-that: `const: "123"` becomes the number 123, and the schema rejects the only value the rule
-accepts. -/
+/-- regression witness (entry `string_const_in_retyped`, fixed by the `!!str` fix): before, a string
+`const` / `in` value that reads as a YAML number, boolean or null was published as that (`const: "123"`
+became the number 123) and the schema rejected the only value the rule accepts; now the same schemas
+accept exactly what the rules accept. -/
 theorem w_string_const_retyped :
     (∀ v ∈ ["123".toList, "true".toList, "null".toList, "1.5".toList, "-7".toList, "~".toList],
       Spec.satisfies .string .single {strConst := some v} (.one (.str v)) = true ∧
-      accepts [] 3 (Impl.fieldSchema .string .single false {strConst := some v}) (jsonForm .string false (.one (.str v))) = false) ∧
+      accepts [] 3 (Impl.stringSchemaBeforeFix {strConst := some v}) (jsonForm .string false (.one (.str v))) = false ∧
+      accepts [] 3 (Impl.fieldSchema .string .single false {strConst := some v}) (jsonForm .string false (.one (.str v))) = true) ∧
     (Spec.satisfies .string .single inRules (.one (.str "123".toList)) = true ∧
-      accepts [] 3 (Impl.fieldSchema .string .single false inRules) (jsonForm .string false (.one (.str "123".toList))) = false ∧
+      accepts [] 3 (Impl.stringSchemaBeforeFix inRules) (jsonForm .string false (.one (.str "123".toList))) = false ∧
+      accepts [] 3 (Impl.fieldSchema .string .single false inRules) (jsonForm .string false (.one (.str "123".toList))) = true ∧
       Spec.satisfies .string .single inRules (.one (.str [])) = true ∧
-      accepts [] 3 (Impl.fieldSchema .string .single false inRules) (jsonForm .string false (.one (.str []))) = false) := by decide
+      accepts [] 3 (Impl.stringSchemaBeforeFix inRules) (jsonForm .string false (.one (.str []))) = false ∧
+      accepts [] 3 (Impl.fieldSchema .string .single false inRules) (jsonForm .string false (.one (.str []))) = true) := by decide
 
-/-- with `format=json` the YAML 1.1 booleans are re-typed as well: `const: "No"` is `false` in
-the JSON document. -/
+/-- with `format=json` the YAML 1.1 booleans are still re-typed: the tagged scalar `No` is written plain
+(a YAML 1.2 reader keeps it a string), and the JSON document is made by re-reading that text with a
+YAML 1.1 library: `const: "No"` is `false` there. -/
 theorem w_string_const_yaml11_in_json :
     (kwOf (Impl.fieldSchemaJson .string .single false {strConst := some "No".toList}) K.const).map (Json.beq (.bool false)) = some true ∧
     Spec.satisfies .string .single {strConst := some "No".toList} (.one (.str "No".toList)) = true ∧
@@ -332,11 +347,15 @@ theorem w_string_const_yaml11_in_json :
     accepts [] 3 (Impl.fieldSchema .string .single false {strConst := some "No".toList})
       (jsonForm .string false (.one (.str "No".toList))) = true := by decide
 
-/-- `string.const = ""`: the generator dies (nil dereference while rendering) and publishes
-nothing. -/
+/-- regression witness (entry `string_const_empty_no_document`, fixed by the `!!str` fix): before,
+`string.const = ""` made the generator die (nil dereference while rendering) and publish nothing;
+now it publishes `const: ""`, which accepts exactly the empty string. -/
 theorem w_string_const_empty_crash :
-    Impl.crashes .string .single {strConst := some []} = true ∧
-    Spec.satisfies .string .single {strConst := some []} (.one (.str [])) = true := by decide
+    Impl.crashesBeforeFix .string .single {strConst := some []} = true ∧
+    Impl.crashes .string .single {strConst := some []} = false ∧
+    Spec.satisfies .string .single {strConst := some []} (.one (.str [])) = true ∧
+    accepts [] 3 (Impl.fieldSchema .string .single false {strConst := some []}) (jsonForm .string false (.one (.str []))) = true ∧
+    accepts [] 3 (Impl.fieldSchema .string .single false {strConst := some []}) (jsonForm .string false (.one (.str "x".toList))) = false := by decide
 
 /-- a `float` bound is widened with `float64(float32)`: `gte: 0.1` is published as
 `minimum: 0.10000000149011612`, which rejects the JSON form `0.1` of the float32 value 0.1
